@@ -842,6 +842,20 @@ def check(spec, res, stats):
         else:                                              # (the generators admit no #opposed-pair / #line-dropped input)
             sit = spec['pair']
         tag = '#%s-%s' % (sit, side)
+    if fam == 'simplify-product':
+        # the situations in which simplify is known to mis-handle a product of two variables (finding F42): the
+        # disagreement point has the factor variable at zero (those points are lost: 0 cmp c is decided for ALL values
+        # of the other variable), or the relation reduces to  product cmp 0  (a bare sign condition on one variable is
+        # returned); any other disagreement keeps the plain #exact / #band key and is reported
+        fz = any(Fr(pt.get(v, 1)) == 0 for v in pt)
+        zero_rhs = False
+        try:                                               # constant part of lhs - rhs: every variable at zero
+            m = re.match(r'^(.*?)(==|<=|>=|!=|=|<|>)(.*)$', in_lines[0])
+            env0 = {v: 0.0 for v in re.findall(r'[A-Za-z_][A-Za-z_0-9]*', in_lines[0])}
+            zero_rhs = eval(m.group(1), {'__builtins__': {}}, env0) - eval(m.group(3), {'__builtins__': {}}, env0) == 0
+        except Exception:                                  # noqa -- unparsable: keep the plain key
+            pass
+        tag = '#product-compared-with-zero' if zero_rhs else '#point-with-a-zero-factor' if fz else tag
     if fam in CONST_FAMILIES and not dropped:              # sub-case = kind of system + do preloaded names occur
         tag = '#%s-%s-%s' % (spec['base'], 'preloaded-name' if set(consts) & set(_preloaded_constants() + PRELOADED_FUNCS)
                              else 'ordinary-names', mode)
